@@ -20,12 +20,27 @@ import (
 
 type jv = map[string]any
 
+// encText writes a text one character per byte (a Starlark string is a sequence of bytes, and
+// so is what the differ compares): bytes above 0x7f, which need not form valid UTF-8, become
+// the code points U+0180..U+01FF so that they survive the trace file.
+func encText(s string) string {
+	rs := make([]rune, len(s))
+	for i := 0; i < len(s); i++ {
+		if s[i] < 0x80 {
+			rs[i] = rune(s[i])
+		} else {
+			rs[i] = rune(0x100 + int(s[i]))
+		}
+	}
+	return string(rs)
+}
+
 func toJV(v starlark.Value) jv {
 	switch x := v.(type) {
 	case starlark.String:
-		return jv{"t": "str", "v": string(x)}
+		return jv{"t": "str", "v": encText(string(x))}
 	case starlark.Bytes:
-		return jv{"t": "bytes", "v": string(x)}
+		return jv{"t": "bytes", "v": encText(string(x))}
 	case starlark.Tuple:
 		items := make([]any, len(x))
 		for i, e := range x {
@@ -108,6 +123,13 @@ func seqs(alpha []string, n int) []string {
 		prev = cur
 	}
 	return res
+}
+
+func mkText(kind, s string) starlark.Value {
+	if kind == "bytes" {
+		return starlark.Bytes(s)
+	}
+	return starlark.String(s)
 }
 
 func mkSeq(kind, s string, nest int) starlark.Value {
@@ -211,6 +233,17 @@ func TestVerifDiff(t *testing.T) {
 			}
 		}
 	}
+	// texts with bytes that are not valid UTF-8 (a lone continuation byte, 0xff) and a two-byte
+	// character: a string is compared byte by byte
+	bs := seqs([]string{"a", "\xff", "\x80", "\xc3"}, min(maxLen, 3))
+	for _, kind := range []string{"str", "bytes"} {
+		for _, a := range bs {
+			for _, b := range bs {
+				try(mkText(kind, a), mkText(kind, b))
+			}
+		}
+	}
+	try(starlark.Tuple{starlark.String("x\x80y"), starlark.String("\xff")}, starlark.Tuple{starlark.String("xy"), starlark.String("\xfe")})
 	// one level of nesting and mixed kinds on shorter sequences
 	short := seqs([]string{"a", "b", "c"}, min(maxLen, 3))
 	for _, a := range short {
